@@ -69,8 +69,8 @@ class Empty(Expression):
             return True
         return isinstance(other, (list, dict, str)) and not other
 
-    def __str__(self) -> str:  # pragma: no cover
-        return ""
+    def __str__(self) -> str:
+        return "empty"
 
     def evaluate(self, _: RenderContext) -> Empty:
         return self
@@ -89,8 +89,8 @@ class Blank(Expression):
             return True
         return isinstance(other, Blank)
 
-    def __str__(self) -> str:  # pragma: no cover
-        return ""
+    def __str__(self) -> str:
+        return "blank"
 
     def evaluate(self, _: RenderContext) -> Blank:
         return self
